@@ -391,6 +391,20 @@ pub fn meta_receivers() -> BTreeMap<&'static str, RecvDesc> {
             "vlitstr", "vlitint", "vu8", "vu64", "vwhere", "pathlist", "flag", "identstring", "spbool", "ovu8", "wobool", "punct", "hmss", "rcu8", "arcs", "refb", "rmeta", "dres", "pexpr",
         ])),
     ));
+    add(recv(
+        "L4",
+        Struct(loose(&[
+            "litfloat", "litbyte", "litbytestr", "litchar", "literal", "vlitfloat", "vlitbyte", "vlitbytestr", "vlitchar", "vlitbool", "vliteral", "vu16", "vu32", "vusize", "nzu16", "nzu32",
+            "nzu64", "nzusize", "nzi8", "nzi16", "nzi32", "nzi128", "nzisize", "rename", "bxstr", "rcflag", "ovbool", "spf64", "wolit",
+        ])),
+    ));
+    add(recv(
+        "L5",
+        Struct(loose(&[
+            "tarray", "tbarefn", "tgroup", "timpl", "tinfer", "tmacro", "tnever", "tparam", "tparen", "tpath", "tptr", "tref", "tslice", "ttrait", "ttuple", "punctexpr", "punctty", "hmsu", "bmil",
+            "hmpt", "many", "pstr",
+        ])),
+    ));
     // keyed collections as root targets (C14); hash maps and their ordered twins share site ids
     for (h, b, key, val) in [
         ("RHS", Some("RBS"), KeyKind::Str, pm(2701)),
